@@ -172,9 +172,7 @@ Fixpoint join_sp (l : list str) : str :=
     dictionary; every edit string segmented on its own *)
 Definition spell_cfg (fd : bool) (tabs : option (list sins * list srep)) : wcfg :=
   match tabs with
-  | Some (it, rt) =>
-      {| wk_ins := true; wk_del := true; wk_rep := true; wk_swap := true; wfull_del := fd;
-         witab := map seg_ins it; wrtab := map seg_rep rt |}
+  | Some (it, rt) => spell_cfg_of fd it rt
   | None =>
       {| wk_ins := false; wk_del := true; wk_rep := false; wk_swap := true; wfull_del := fd;
          witab := []; wrtab := [] |}
